@@ -114,6 +114,13 @@ func (h *killedHandler) cleanupIfNotRestarting() {
 		h.ctx.tell(true, h.ctx.parent, h.selfKilledMessage)
 	}
 
+	// 暂存区随 Actor 终止而消失：其中的消息既未被处理也不会再被取出，归还邮箱，由下方恢复后的邮箱排空为死信，
+	// 而不是无声丢弃。
+	for _, stashed := range h.ctx.stash {
+		h.ctx.mailbox.Enqueue(stashed)
+	}
+	h.ctx.stash = nil
+
 	// 因故障被挂起（failed / 监管暂停指令）后被终止的 Actor，其邮箱仍处于暂停状态：
 	// 已排队及之后经由旧引用到达的普通消息将永远滞留、不会进入死信。终止后恢复邮箱，使其排空为死信。
 	h.ctx.mailbox.Resume()
